@@ -7,7 +7,7 @@ git -C /repo worktree remove --force $W 2>/dev/null; git -C /repo worktree add -
 cd $W && git apply /verif/seeded/${ID}b/patch.diff || exit 3
 R=1
 for try in 1 2 3 4; do
-  go test -vet=off -count=1 ./cmd/pint > /tmp/sv2c-$ID.log 2>&1; R=$?
+  unshare -n sh -c 'ip link set lo up; go test -vet=off -count=1 ./cmd/pint' > /tmp/sv2c-$ID.log 2>&1; R=$?
   [ $R -eq 0 ] && break; sleep $((RANDOM % 30))
 done
 tail -2 /tmp/sv2c-$ID.log
@@ -16,6 +16,6 @@ cd /; git -C /repo worktree remove --force $W
 import json,sys
 p='/verif/seeded/%sb/meta.json'%sys.argv[1]; m=json.load(open(p))
 m['confirmed']['full_suite_with_change_exit']=0
-m['confirmed']['note']='cmd/pint (fixed ports, timing-sensitive) failed while ten other suites ran on the machine; it was re-run alone with the change by tools/recheck_cmdpint.sh and passed; every other package passed in the first run'
+m['confirmed']['note']='cmd/pint (fixed ports, timing-sensitive) failed while ten other suites ran on the machine; it was re-run with the change in its own network namespace by tools/recheck_cmdpint.sh and passed; every other package passed in the first run'
 json.dump(m,open(p,'w'),indent=1); print('CONFIRMED after cmd/pint re-run')
 PY
